@@ -169,6 +169,21 @@ func c09Case(w *fw.W, idx int, r *fw.Rand) {
 		return
 	}
 	b := c09NewVM(cfg)
+	usedTarget := r.P(1, 3)
+	if usedTarget {
+		// roll back into a VM that has been in use: it holds other variables (some created after
+		// its last internal promotion), which the restore must replace completely
+		fw.Guard(func() { _ = b.Run(ref.Setup) })
+		for i := r.Range(1, 4); i > 0; i-- {
+			s := r.Pick(c09Builders)
+			fw.Guard(func() { _ = b.Run(s) })
+			if r.Bool() {
+				fw.Guard(func() { _, _ = b.Attrs.ToJSON() }) // Range → promotion
+			}
+		}
+		fw.Guard(func() { _ = b.Run("onlyInTarget = 12345; another = [1,2]") })
+		w.Count("restores_into_used_vm", 1)
+	}
 	pv, st = fw.Guard(func() { err = json.Unmarshal(snap, b.Attrs) })
 	if pv != nil {
 		w.Violate(idx, "panic", fw.PanicKey(pv, st), desc, "Unmarshal: "+fmt.Sprint(pv), nil)
@@ -205,6 +220,11 @@ func c09Case(w *fw.W, idx int, r *fw.Rand) {
 	src.Init()
 	b.RandSrc = src.RandSrc
 	rest := append(append([]string{}, stmts[cut:]...), follow...)
+	if usedTarget {
+		// create a variable that is not in the snapshot, then read ones the rollback removed
+		rest = append([]string{"fresh1 = 7", "onlyInTarget ?? 'gone'", "another ?? 'gone'"}, rest...)
+		rest = append(rest, "fresh2 = 8", "onlyInTarget ?? 'gone'", "zz1 ?? zz2 ?? zz3 ?? zz4 ?? 0", "another ?? 'gone'")
+	}
 	for i, f := range rest {
 		oa, ob := c09Follow(a, f), c09Follow(b, f)
 		w.Count("followups", 1)
@@ -230,6 +250,15 @@ func c09Case(w *fw.W, idx int, r *fw.Rand) {
 		}
 		if hasAliasing(a) {
 			break // the follow-up created aliasing; later mutation could legitimately diverge
+		}
+	}
+	if usedTarget {
+		// after everything, one more snapshot of both must agree (a promotion happens here)
+		sa, _ := a.Attrs.ToJSON()
+		sb, _ := b.Attrs.ToJSON()
+		ca, cb := c09NewVM(cfg), c09NewVM(cfg)
+		if json.Unmarshal(sa, ca.Attrs) == nil && json.Unmarshal(sb, cb.Attrs) == nil && CanonVars(ca) != CanonVars(cb) && !hasAliasing(a) {
+			w.Violate(idx, "json", "json|behaviour|final-state", desc, fmt.Sprintf("final snapshots differ\n original %s\n restored %s", trunc(CanonVars(ca), 500), trunc(CanonVars(cb), 500)), nil)
 		}
 	}
 	w.Note(fw.Hash64(desc))
